@@ -422,6 +422,34 @@ def gen_random(rng, count):
     return cases
 
 
+def gen_bigcomp(rng, quick):
+    """payloads so compressible that ONE raw block of the file expands to more than 512 KiB (ratio > 64:1; runs of one
+    byte, short periods), 512 KiB + 1 ... 3 MiB, every compresslevel, read in one read(), in chunks, through readinto,
+    with seeks to and from the end"""
+    sizes = [524289, 614400, 1048576] if quick else [524289, 614400, 1048576, 2 * 1048576 + 17, 3 * 1048576]
+    cases = []
+    i = 0
+    for level in range(1, 10):
+        for n in (sizes[level % len(sizes):] + sizes)[:1 if quick else len(sizes)]:
+            i += 1
+            gen = ["run", "zeros", "period"][i % 3]
+            style = i % 4
+            if style == 0:
+                ops = [["read", -1], ["tell"], ["read", 5]]
+            elif style == 1:
+                ops = [["read", 200000]] * (n // 200000 + 2) + [["tell"]]
+            elif style == 2:
+                ops = [["readinto", 300000, "bytearray"], ["readinto", 400000, "arrI"], ["seek", 0, 2], ["tell"],
+                       ["seek", -5, 2], ["read", 10]]
+            else:
+                ops = [["seek", 0, 2], ["seek", -7, 1], ["read", -1], ["seek", 0, 0], ["read", 524288], ["read", -1], ["tell"]]
+            cases.append({"kind": "read", "fmt": "gzip" if i % 5 == 0 else "zlib", "level": level,
+                          "payload": {"gen": gen, "n": n, "seed": i}, "bufsize": None,
+                          "trailer": {"kind": "bytes", "n": 9} if i % 7 == 0 else None, "trunc": None, "via": "bytesio",
+                          "ops": ops, "family": "bigcomp"})
+    return cases
+
+
 def gen_write(rng, count):
     cases = []
     for i in range(count):
@@ -591,7 +619,7 @@ def eval_readlines(ctx, cases, stats):
 
 
 # ------------------------------------------------------------------ evaluation of a batch
-def evaluate(ctx, cases, name, stats):
+def evaluate(ctx, cases, name, stats, shard=None):
     """runs implementation, oracle and model on read cases.
     Returns (oracle_failures, disagreements, script_failures)."""
     res = run_impl_cases(cases)
@@ -645,7 +673,8 @@ def evaluate(ctx, cases, name, stats):
             stats["with_trailer"] += 1
         if not sc["complete"]:
             stats["truncated"] += 1
-    vals = ctx.coq_eval_lines(REQ, DEFS, exprs, name=name, shard=max(20, min(200, len(exprs) // (2 * common.NCPU) + 1)))
+    vals = ctx.coq_eval_lines(REQ, DEFS, exprs, name=name,
+                              shard=shard or max(20, min(200, len(exprs) // (2 * common.NCPU) + 1)))
     for (c, r, groups, dfile, scope_end), v in zip(meta, vals):
         drift = []
         diff = compare_read(c, r, parse_trace(v), groups, dfile, drift, scope_end)
@@ -672,7 +701,7 @@ def evaluate(ctx, cases, name, stats):
 
 def search_failing(ctx, n=300):
     """oracle-only search for a failing input (used when a proof or the correspondence breaks)"""
-    cases = gen_exhaustive(True)[:900] + gen_random(ctx.rng, n)
+    cases = gen_bigcomp(ctx.rng, True) + gen_exhaustive(True)[:900] + gen_random(ctx.rng, n)
     res = run_impl_cases(cases)
     for c, r in zip(cases, res):
         if "harness_error" in r or "skipped" in r:
@@ -729,6 +758,11 @@ def run(ctx):
     rnd_cases = gen_random(ctx.rng, 700 if quick else 6000)
     cases += ex_cases + rnd_cases
     oracle_fail, disagree, script_fail = evaluate(ctx, cases, "c13_read", stats)
+    big_cases = gen_bigcomp(ctx.rng, quick)
+    b_fail, b_dis, b_script = evaluate(ctx, big_cases, "c13_big", stats, shard=1)
+    oracle_fail += b_fail
+    disagree += b_dis
+    script_fail += b_script
     rl_cases = gen_readlines(ctx.rng, 40 if quick else 300)
     rl_fail, rl_dis = eval_readlines(ctx, rl_cases, stats)
     oracle_fail += rl_fail
@@ -802,12 +836,14 @@ def run(ctx):
         sizes[c["payload"]["n"] if c["payload"]["n"] in SIZES else "other"] = sizes.get(
             c["payload"]["n"] if c["payload"]["n"] in SIZES else "other", 0) + 1
     ctx.finish({
-        "evaluations": len(cases) + len(wcases) + len(rl_cases),
+        "evaluations": len(cases) + len(wcases) + len(rl_cases) + len(big_cases),
+        "highly_compressible_large_payload_cases": len(big_cases),
         "readline_cases_on_real_bytes": len(rl_cases),
         "distinct_nontrivial": len(stats["nontrivial"]),
         "rule": "read histories: all sequences of length <=3 over a 9-operation alphabet on many-block files "
                 "(_BUFFER_SIZE patched to 2..5 in the child) plus random histories of length <=40 on payloads of "
-                "0,1,2,100,8191,8192,8193,16384,24577,70000 and random sizes, incompressible/periodic/zero/text, "
+                "0,1,2,100,8191,8192,8193,16384,24577,70000 and random sizes, plus highly compressible payloads (runs of one "
+                "byte, short periods) of 512 KiB+1 ... 3 MiB whose single raw block expands past 512 KiB, at every level, incompressible/periodic/zero/text, "
                 "levels 1-9, zlib and gzip, real _BUFFER_SIZE and small ones, trailers (1 byte, 9 bytes, a second "
                 "stream, 8192/20000 bytes) and truncations; write histories over chunkings (one chunk, 1-byte chunks, "
                 "8192 blocks, random incl. empty chunks, memoryview), levels 1-9. non-trivial = the history refilled "
